@@ -6,6 +6,7 @@ import (
 	"runtime"
 	"strings"
 	"syscall"
+	"time"
 
 	"verif/harness/extprof"
 	"verif/harness/model"
@@ -65,7 +66,9 @@ func (m *meter) run(family, class string, input []byte) {
 		runtime.ReadMemStats(&ms0)
 		t0 := threadCPU()
 		var err error
+		mon.CallBegin(ep.name)
 		pn, pv, fr := mon.Guard(func() { _, err = ep.fn(input) })
+		mon.CallEnd()
 		t1 := threadCPU()
 		runtime.ReadMemStats(&ms1)
 		c.Count("metered-calls")
@@ -122,7 +125,9 @@ func bombHead(major byte, w int, n uint64) []byte {
 
 func runC06(c *mon.Ctx) {
 	runtime.LockOSThread()
-	c.Rule("every decoding entry point of C05, metered per call in a worker that runs nothing else (locked OS thread): bytes allocated = delta of runtime.MemStats.TotalAlloc (exact), CPU = delta of getrusage(RUSAGE_THREAD); worker under RLIMIT_AS = 4 GiB so that a reservation bomb dies at once and is attributed through the write-ahead log. Inputs (<= 64 KiB): LENGTH BOMBS - for major types 2,3,4,5 and tags, argument widths 1/2/4/8, declared lengths {2^8-1, 2^8, 2^16-1, 2^16, 2^24, 2^31-1, 2^31, 2^32-1, 2^63, 2^64-1} followed by 0..16 bytes, placed at top level, as the value of every known claim key of an otherwise valid token of either profile, inside a component, as a component list, and at each of the four COSE positions (also inside the payload); DEPTH BOMBS - nesting 1..600 of arrays / maps / tags in CBOR (top level, under unknown and known keys), 10^2..2*10^4 in JSON (arrays, objects); WIDTH - up to 64 KiB of one-byte items (nulls, empty maps, empty arrays, zeros) as top-level array, as component list, under unknown keys; JSON arrays of zeros, many short keys, many duplicate keys, long strings, long escapes, 10^5-digit numbers; plus the structure-aware mutants of C05. Oracle: allocated <= 1 MiB + 1 KiB x len(input) and CPU <= 5 s for every call; no process death. A wall-clock watchdog firing is reported as inconclusive, never as a violation. distinct_nontrivial = distinct (class, position, major type, width, declared length) signatures")
+	// a call that never returns is caught while it runs (the meter below only sees calls that return)
+	mon.StartWatchdog(time.Duration(c06CPUSeconds*float64(time.Second)), "cpu-bound-exceeded")
+	c.Rule("every decoding entry point of C05, metered per call in a worker that runs nothing else (locked OS thread): bytes allocated = delta of runtime.MemStats.TotalAlloc (exact), CPU = delta of getrusage(RUSAGE_THREAD); worker under RLIMIT_AS = 4 GiB so that a reservation bomb dies at once and is attributed through the write-ahead log. Inputs (<= 64 KiB): LENGTH BOMBS - for major types 2,3,4,5 and tags, argument widths 1/2/4/8, declared lengths {2^8-1, 2^8, 2^16-1, 2^16, 2^24, 2^31-1, 2^31, 2^32-1, 2^63, 2^64-1} followed by 0..16 bytes, placed at top level, as the value of every known claim key of an otherwise valid token of either profile, inside a component, as a component list, and at each of the four COSE positions (also inside the payload); DEPTH BOMBS - nesting 1..600 of arrays / maps / tags in CBOR (top level, under unknown and known keys), 10^2..2*10^4 in JSON (arrays, objects); WIDTH - up to 64 KiB of one-byte items (nulls, empty maps, empty arrays, zeros) as top-level array, as component list, under unknown keys; JSON arrays of zeros, many short keys, many duplicate keys, long strings, long escapes, 10^5-digit numbers; plus the structure-aware mutants of C05. Oracle: allocated <= 1 MiB + 1 KiB x len(input) and CPU <= 5 s for every call (calls that return are metered after the fact; an in-process watchdog ends the worker as soon as ONE call has used more than 5 s of CPU, which is how a call that never returns is caught and attributed through the write-ahead log); no process death. A wall-clock watchdog firing is reported as inconclusive, never as a violation. distinct_nontrivial = distinct (class, position, major type, width, declared length) signatures")
 	if err := extprof.Register(extprof.ExtP2Name, extprof.ExtP1Name); err != nil {
 		c.Violation("harness/register", err.Error(), nil)
 		return
